@@ -10,13 +10,13 @@
 (* symbols).  A mismatch is DRIFT (the transcription no longer describes   *)
 (* the code), not a property violation: properties are judged by ApiTrace. *)
 (***************************************************************************)
-EXTENDS LdpcIt, Json, IOUtils
+EXTENDS LdpcMl, Json, IOUtils
 
 TraceLog == TLCGet(7)
 LoadLog == TLCSet(7, ndJsonDeserialize(IOEnv.TRACE))
 
-VARIABLES l, cwv, active, nsteps
-tvars == <<pt, tab, M, unk, deg, ct, nrep, rcvd, nullderef, l, cwv, active, nsteps>>
+VARIABLES l, cwv, active, nsteps, nfin
+tvars == <<pt, tab, M, unk, deg, ct, nrep, rcvd, nullderef, fin, l, cwv, active, nsteps, nfin>>
 
 Dummy == [k |-> 1, r |-> 1, N1 |-> 3, seed |-> 1]
 VecOf(v) == { v[i][1] : i \in DOMAIN v }
@@ -46,14 +46,14 @@ Keep == UNCHANGED <<pt, tab, M, unk, deg, ct, nrep, rcvd, nullderef, cwv, active
 
 Init2 ==
     /\ LoadLog
-    /\ l = 1 /\ pt = Dummy /\ cwv = <<>> /\ active = FALSE /\ nsteps = 0 /\ rcvd = {}
+    /\ l = 1 /\ pt = Dummy /\ cwv = <<>> /\ active = FALSE /\ nsteps = 0 /\ rcvd = {} /\ fin = NoFin /\ nfin = 0
     /\ tab = <<>> /\ M = {} /\ unk = <<>> /\ deg = <<>> /\ ct = <<>> /\ nrep = 0 /\ nullderef = FALSE
 
 Check(st, ev, p) ==
     IF SameAsLogged(st, ev.it, p)
-    THEN /\ Adopt(st) /\ active' = TRUE /\ nsteps' = nsteps + 1
+    THEN /\ Adopt(st) /\ active' = TRUE /\ nsteps' = nsteps + 1 /\ nfin' = nfin
     ELSE /\ PrintT(<<"DRIFT", l, ev.x, "LdpcIt-state-differs-after-" \o ev.e>>)
-         /\ Adopt(st) /\ active' = FALSE /\ nsteps' = nsteps
+         /\ Adopt(st) /\ active' = FALSE /\ nsteps' = nsteps /\ nfin' = nfin
 
 TNext ==
     /\ l <= Len(TraceLog)
@@ -76,11 +76,26 @@ TNext ==
                     /\ Check(FoldLeft(LAMBDA st, e : Inject(pt, st, e, cwv[e]), StateRec, SetToSortSeq(ToSet(ev.set), LAMBDA a, b : a < b)), ev, pt)
                     /\ rcvd' = rcvd \cup ToSet(ev.set)
                     /\ UNCHANGED <<pt, cwv>>
+             [] ev.e = "Finish" /\ active /\ ev.s = 0 /\ "ml" \in DOMAIN ev ->
+                    LET perm == IF Len(ev.ml.perm) = pt.r THEN ev.ml.perm ELSE [ j \in 1 .. pt.r |-> j - 1 ]
+                        f    == FinishRec(pt, StateRec, perm)
+                        \* what the code logged: pivot rows (0-based) per column, then the failing column if any
+                        logged == [ j \in 1 .. Len(ev.ml.piv) |-> ev.ml.piv[j] + 1 ] \o (IF ev.ml.fail > 0 THEN << -ev.ml.fail >> ELSE <<>>)
+                        dimsOk == f.stage \in {"already"} \/ (ev.ml.simpl[1] = f.dims[1] /\ ev.ml.simpl[2] = f.dims[2])
+                        same == /\ f.status = ev.st
+                                /\ f.piv = logged
+                                /\ dimsOk
+                                /\ { i \in Src(pt) : f.st.tab[i] # NoVal } = ToSet(ev.ml.known)
+                    IN  /\ IF same THEN nfin' = nfin + 1
+                           ELSE PrintT(<<"DRIFT", l, ev.x, "LdpcMl-finish-differs-stage-" \o f.stage>>) /\ nfin' = nfin
+                        /\ active' = FALSE
+                        /\ UNCHANGED <<pt, tab, M, unk, deg, ct, nrep, rcvd, nullderef, cwv, nsteps>>
              [] ev.e \in {"Finish", "Release", "Reset", "MemFault"} /\ (ev.e \in {"Reset", "MemFault"} \/ ev.s = 0) ->
                     /\ active' = FALSE
-                    /\ UNCHANGED <<pt, tab, M, unk, deg, ct, nrep, rcvd, nullderef, cwv, nsteps>>
-             [] OTHER -> Keep
-    /\ IF l = Len(TraceLog) THEN PrintT(<<"ITSTEPS", nsteps'>>) ELSE TRUE
+                    /\ UNCHANGED <<pt, tab, M, unk, deg, ct, nrep, rcvd, nullderef, cwv, nsteps, nfin>>
+             [] OTHER -> Keep /\ nfin' = nfin
+    /\ fin' = fin
+    /\ IF l = Len(TraceLog) THEN PrintT(<<"ITSTEPS", nsteps'>>) /\ PrintT(<<"MLSTEPS", nfin'>>) ELSE TRUE
 
 TraceSpec == Init2 /\ [][TNext]_tvars
 TraceConsumed == TLCGet("stats").diameter - 1 = Len(TraceLog)
